@@ -621,7 +621,10 @@ func (p *Parser) parseSlots() []*ast.SlotStmt {
 			Body:  p.parseBlockStmt(),
 		})
 
-		p.nextToken() // skip block statement
+		if !p.expectPeek(token.END) { // move to "@end"
+			return nil
+		}
+
 		p.nextToken() // skip "@end"
 
 		for p.curTokenIs(token.HTML) {
